@@ -185,16 +185,19 @@ func (o *OvsdbServer) ListDatabases(client *rpc2.Client, args []interface{}, rep
 
 func (o *OvsdbServer) GetSchema(client *rpc2.Client, args []interface{}, reply *ovsdb.DatabaseSchema,
 ) error {
+	if len(args) < 1 {
+		return fmt.Errorf("not enough args")
+	}
 	db, ok := args[0].(string)
 	if !ok {
 		return fmt.Errorf("database %v is not a string", args[0])
 	}
 	o.modelsMutex.RLock()
 	model, ok := o.models[db]
+	o.modelsMutex.RUnlock()
 	if !ok {
 		return fmt.Errorf("database %s does not exist", db)
 	}
-	o.modelsMutex.RUnlock()
 	*reply = model.Schema
 	return nil
 }
@@ -250,6 +253,9 @@ func (o *OvsdbServer) Cancel(client *rpc2.Client, args []interface{}, reply *[]i
 
 // Monitor monitors a given database table and provides updates to the client via an RPC callback
 func (o *OvsdbServer) Monitor(client *rpc2.Client, args []json.RawMessage, reply *ovsdb.TableUpdates) error {
+	if len(args) < 3 {
+		return fmt.Errorf("not enough args")
+	}
 	var db string
 	if err := json.Unmarshal(args[0], &db); err != nil {
 		return fmt.Errorf("database %v is not a string", args[0])
@@ -261,6 +267,11 @@ func (o *OvsdbServer) Monitor(client *rpc2.Client, args []json.RawMessage, reply
 	var request map[string]*ovsdb.MonitorRequest
 	if err := json.Unmarshal(args[2], &request); err != nil {
 		return err
+	}
+	for t, r := range request {
+		if r == nil {
+			return fmt.Errorf("monitor request for table %s is null", t)
+		}
 	}
 	// a transaction notifies the monitors before it commits: reading the
 	// initial contents and registering must not fall in between, or this
@@ -301,6 +312,9 @@ func (o *OvsdbServer) Monitor(client *rpc2.Client, args []json.RawMessage, reply
 
 // MonitorCond monitors a given database table and provides updates to the client via an RPC callback
 func (o *OvsdbServer) MonitorCond(client *rpc2.Client, args []json.RawMessage, reply *ovsdb.TableUpdates2) error {
+	if len(args) < 3 {
+		return fmt.Errorf("not enough args")
+	}
 	var db string
 	if err := json.Unmarshal(args[0], &db); err != nil {
 		return fmt.Errorf("database %v is not a string", args[0])
@@ -312,6 +326,11 @@ func (o *OvsdbServer) MonitorCond(client *rpc2.Client, args []json.RawMessage, r
 	var request map[string]*ovsdb.MonitorRequest
 	if err := json.Unmarshal(args[2], &request); err != nil {
 		return err
+	}
+	for t, r := range request {
+		if r == nil {
+			return fmt.Errorf("monitor request for table %s is null", t)
+		}
 	}
 	// a transaction notifies the monitors before it commits: reading the
 	// initial contents and registering must not fall in between, or this
@@ -352,6 +371,9 @@ func (o *OvsdbServer) MonitorCond(client *rpc2.Client, args []json.RawMessage, r
 
 // MonitorCondSince monitors a given database table and provides updates to the client via an RPC callback
 func (o *OvsdbServer) MonitorCondSince(client *rpc2.Client, args []json.RawMessage, reply *ovsdb.MonitorCondSinceReply) error {
+	if len(args) < 3 {
+		return fmt.Errorf("not enough args")
+	}
 	var db string
 	if err := json.Unmarshal(args[0], &db); err != nil {
 		return fmt.Errorf("database %v is not a string", args[0])
@@ -363,6 +385,11 @@ func (o *OvsdbServer) MonitorCondSince(client *rpc2.Client, args []json.RawMessa
 	var request map[string]*ovsdb.MonitorRequest
 	if err := json.Unmarshal(args[2], &request); err != nil {
 		return err
+	}
+	for t, r := range request {
+		if r == nil {
+			return fmt.Errorf("monitor request for table %s is null", t)
+		}
 	}
 	// a transaction notifies the monitors before it commits: reading the
 	// initial contents and registering must not fall in between, or this
